@@ -550,8 +550,12 @@ func (p *Prog) contractModset(ct *Contract, fi *FuncInfo, ms map[string]bool) {
 		switch {
 		case m == "*":
 			ms["*"] = true
-		case m == "maps":
+		case m == "maps" || strings.HasPrefix(m, "map:"):
 			ms["M.*"] = true
+		case m == "$wg":
+			ms["F.$wg.count"] = true
+		case m == "$chanclosed":
+			ms["F.$chan.closed"] = true
 		case m == "":
 		default:
 			parts := strings.Split(m, ".")
